@@ -444,9 +444,10 @@ CLS_DRIVER = r"""
 """
 
 
-def member_trace(events, cls="Cls"):
+def member_trace(events, cls="Cls", out=None):
     """The log of a run as a sequence of specs/Members.tla actions: constructor / destructor / get() / set() events of
     the instrumented library, MemberSet / MemberGet events of the driver.  Objects are numbered in order of appearance."""
+    outdir = out
     ids = {}
 
     def oid(x):
@@ -474,6 +475,13 @@ def member_trace(events, cls="Cls"):
             out.append({"op": "LGet", "o": pend.pop("get"), "m": "value", "v": num(vals[0])})
         elif ev in ("MemberSet", "MemberGet"):
             out.append({"op": "WSet" if ev == "MemberSet" else "WGet", "o": oid(vals[0]["v"]), "m": f, "v": num(vals[1])})
+    if outdir and os.path.isdir(outdir):
+        # a setter the wrappers offer for the read-only member is a way to write it, called or not
+        for fn in sorted(os.listdir(outdir)):
+            if fn.endswith((".h", ".hpp", ".f", ".f90")) and re.search(r"\bset_ro\b|_set_ro\b", open(os.path.join(outdir, fn), errors="replace").read()):
+                alive = [e["o"] for e in out if e["op"] == "New" and not any(x["op"] == "Delete" and x["o"] == e["o"] for x in out)]
+                out.append({"op": "WSet", "o": alive[-1] if alive else 1, "m": "ro", "v": 0})
+                break
     return out
 
 CLS_SIGS = {
@@ -623,4 +631,4 @@ def build_and_run_c(d, cases, with_class=True, nvals=4, options=None, extra_argv
             sig = tla_sig(c, tt, nsup, "c")
             label = "%s [%s]" % (tg, cname)
         traces.append({"sig": sig, "events": ev, "label": label})
-    return {"traces": traces, "problems": problems, "yaml": y, "members": member_trace(events) if with_class else []}
+    return {"traces": traces, "problems": problems, "yaml": y, "members": member_trace(events, out=out) if with_class else []}
